@@ -49,7 +49,7 @@ catlists = st.one_of(st.lists(st.sampled_from(cats.ALL), max_size=4, unique=True
 @st.composite
 def ops(draw):
     name = draw(st.sampled_from(['dumps', 'dumps', 'dumps', 'export_options', 'tokens', 'unique', 'encodings', 'unique_encodings',
-                                 'frequencies', 'metacomments', 'spine_types', 'mono', 'iter', 'count', 'first', 'spine_ids',
+                                 'frequencies', 'metacomments', 'metacomments', 'spine_types', 'mono', 'iter', 'count', 'first', 'spine_ids',
                                  'headers', 'voices', 'graph_file', 'graph_stdout', 'next', 'zip', 'iter_partial']))
     o = {'op': name, 'shape': draw(st.sampled_from(['list', 'set', 'tuple']))}
     if name in ('dumps', 'export_options'):
@@ -73,7 +73,7 @@ def ops(draw):
     elif name == 'metacomments':
         # '@n' = the n-th reference-record key that actually occurs in the document (resolved when applied)
         o['key'] = draw(st.sampled_from([None, 'COM', 'OTL', 'ABSENT', '', '@0', '@0', '@1', '@2']))
-        o['clear'] = draw(st.booleans())
+        o['clear'] = draw(st.integers(0, 2)) > 0
     elif name == 'spine_types':
         o['headers'] = draw(st.one_of(st.none(), st.lists(st.sampled_from(D.ALL_TYPES), max_size=3, unique=True)))
     elif name == 'voices':
